@@ -64,9 +64,19 @@ var theT *testing.T
 
 func run(s Script) (res vt.Result) {
 	if p := vt.Bubble(theT, func() { res = runInBubble(s) }); p != "" {
-		res.Failf("bubble did not end cleanly (timer/goroutine left behind, or deadlock): %s", p)
+		judgeLeftover(&res, p)
 	}
 	return res
+}
+
+// judgeLeftover: the property speaks of keep-alive's own timer and goroutine; a leftover goroutine of the
+// SDK that has nothing to do with keep-alive is only recorded (class teardown_leftover).
+func judgeLeftover(res *vt.Result, p string) {
+	if strings.Contains(p, "startKeepalive") || strings.Contains(strings.ToLower(p), "keepalive") {
+		res.Failf("bubble did not end cleanly (keep-alive timer/goroutine left behind): %s", p)
+		return
+	}
+	res.Class("teardown_leftover")
 }
 
 func pings(sc *memio.ScriptConn) (reqs []*jsonrpc.Request, times []time.Time) {
@@ -101,8 +111,16 @@ func runInBubble(s Script) (res vt.Result) {
 		}
 		ss, err := server.Connect(context.Background(), sc.Transport(), opts)
 		if err != nil {
-			res.Failf("setup: %v", err)
+			res.Failf("harness: setup: %v", err)
 			return
+		}
+		if s.Side == "server" {
+			// The peer performs the documented initialize handshake (it takes no virtual time), so that an
+			// SDK which starts keep-alive only once the session is initialized is accepted as well.
+			sc.InjectRaw(`{"jsonrpc":"2.0","id":"init","method":"initialize","params":{"protocolVersion":"2025-06-18","capabilities":{},"clientInfo":{"name":"scripted","version":"1"}}}`)
+			synctest.Wait()
+			sc.InjectRaw(`{"jsonrpc":"2.0","method":"notifications/initialized"}`)
+			synctest.Wait()
 		}
 		wait, closeS = ss.Wait, ss.Close
 		manualPing = func(ctx context.Context) error { return ss.Ping(ctx, nil) }
@@ -117,7 +135,7 @@ func runInBubble(s Script) (res vt.Result) {
 			cs, err = memio.ConnectClient(client, sc, "2025-06-18", "")
 		}
 		if err != nil {
-			res.Failf("setup: %v", err)
+			res.Failf("harness: setup: %v", err)
 			return
 		}
 		wait, closeS = cs.Wait, cs.Close
@@ -146,7 +164,7 @@ func runInBubble(s Script) (res vt.Result) {
 	var desc strings.Builder
 	recovered, thrReached := false, false
 	state := "alive" // alive | closed | ended (mnf) | userclosed
-	var expectClose time.Duration
+	var expectClose, closeBound time.Duration
 	half := I / 2
 
 	sleepUntil := func(d time.Duration) { // absolute offset from t0
@@ -160,6 +178,7 @@ loop:
 	for k := 1; k <= len(s.Pattern); k++ {
 		tk := s.Pattern[k-1]
 		at := time.Duration(k) * I
+		sent := at // when ping #k was really sent
 		// One tick before: if the peer must reject this ping's write, arm it now.
 		if tk.Outcome == "reject" {
 			sleepUntil(at - 1)
@@ -186,8 +205,12 @@ loop:
 				break loop
 			}
 			seenPings++
-			if got := times[len(times)-1].Sub(t0); got != at {
-				res.Failf("tick %d: ping sent at t=%v, want exactly %v", k, got, at)
+			// The property bounds the closing instant, not the instant of each ping: ping #k may be sent at any
+			// instant of the k-th interval (one ping per interval is the documented "interval for regular ping
+			// requests"); answers, time-outs and the closing instant are counted from when it was really sent.
+			sent = times[len(times)-1].Sub(t0)
+			if sent > at || sent <= at-I {
+				res.Failf("tick %d: ping sent at t=%v, want within the interval (%v, %v]", k, sent, at-I, at)
 				break loop
 			}
 		} else if len(reqs) != seenPings-1 && len(reqs) != seenPings {
@@ -198,30 +221,31 @@ loop:
 			req = reqs[len(reqs)-1]
 		} else {
 			seenPings = len(reqs) // re-sync: rejected ping is not in Written
+			sent = at             // the rejected write was released by the peer at this instant
 		}
 		desc.WriteString(tk.Outcome[:1])
 		failed := false
 		lat := time.Duration(0)
 		switch tk.Outcome {
 		case "ok":
-			time.Sleep(time.Duration(tk.DelayNS))
+			sleepUntil(sent + time.Duration(tk.DelayNS))
 			sc.Inject(&jsonrpc.Response{ID: req.ID, Result: json.RawMessage(`{}`)})
 		case "late":
 			failed, lat = true, half
 			go func(d time.Duration, id jsonrpc.ID) {
 				time.Sleep(d)
 				sc.Inject(&jsonrpc.Response{ID: id, Result: json.RawMessage(`{}`)})
-			}(time.Duration(tk.DelayNS), req.ID)
+			}(max(0, sent+time.Duration(tk.DelayNS)-time.Since(t0)), req.ID)
 		case "never":
 			failed, lat = true, half
 		case "err":
 			failed, lat = true, time.Duration(tk.DelayNS)
-			time.Sleep(lat)
+			sleepUntil(sent + lat)
 			sc.Inject(&jsonrpc.Response{ID: req.ID, Error: &jsonrpc.Error{Code: -32603, Message: "scripted internal error"}})
 		case "reject":
 			failed, lat = true, 0
 		case "mnf":
-			time.Sleep(time.Duration(tk.DelayNS))
+			sleepUntil(sent + time.Duration(tk.DelayNS))
 			sc.Inject(&jsonrpc.Response{ID: req.ID, Error: &jsonrpc.Error{Code: -32601, Message: "ping unsupported"}})
 			state = "ended"
 		}
@@ -233,7 +257,8 @@ loop:
 			misses++
 			if misses >= thr {
 				state = "closed"
-				expectClose = at + lat
+				expectClose = sent + lat
+				closeBound = sent + half // "that many intervals plus one ping timeout"
 				if thr >= 2 {
 					thrReached = true
 				}
@@ -271,6 +296,16 @@ loop:
 			break
 		}
 		sleepUntil(expectClose)
+		if expectClose < closeBound && (!sc.IsClosed() || !isWaitDone()) {
+			// The last ping failed at once (error answer, refused write): the property bounds the closing instant
+			// by one ping timeout after the ping, it does not demand the very instant of the failure.
+			sleepUntil(closeBound)
+			if !sc.IsClosed() || !isWaitDone() {
+				res.Failf("session not closed at t=%v although %d consecutive keep-alive pings failed (threshold %d)", closeBound, misses, thr)
+			}
+			res.Class("closed_by_keepalive")
+			break
+		}
 		if !sc.IsClosed() || !isWaitDone() {
 			res.Failf("session not closed at t=%v although %d consecutive keep-alive pings failed (threshold %d)", expectClose, misses, thr)
 			break
@@ -325,8 +360,16 @@ loop:
 		select {
 		case <-done:
 		default:
-			res.Failf("Close did not return")
-			sc.Close()
+			// Close "waits for ongoing requests to return" (its doc comment); how long its own shutdown may take
+			// is not the property's business: give it a generous (virtual) grace period before judging.
+			time.Sleep(I + time.Minute)
+			synctest.Wait()
+			select {
+			case <-done:
+			default:
+				res.Failf("Close did not return")
+				sc.Close()
+			}
 		}
 	}
 	// Right after the session is closed (and any in-flight ping has timed out) the
